@@ -10,6 +10,20 @@ NOTE = ("Trusted: Coq 8.16.1 kernel + vm_compute; no axioms (Print Assumptions c
         "its ExtrOcamlBasic extraction vs the implementation built from the working tree); Rust harness, python generators.")
 
 CHECKS = {
+    "C20": dict(
+        category="proof",
+        text="Theorems for ALL message histories and ALL schedules (Props/C20.v, 17 theorems) over the transition system of "
+             "the three tasks (reader, document broker, responder), the two bounded FIFO channels and the one-shot reply "
+             "transcribed from server.rs / document.rs / io.rs / features.rs: every execution refines the sequential "
+             "specification per output stream (responses in request order, read-your-writes, last diagnostics describe the "
+             "final content, no diagnostics without the capability), URIs are isolated, closed documents are forgotten until "
+             "reopened, no deadlock, termination. The model is tied to the built binary by bursts of 200-2000 pipelined "
+             "messages over 1-4 URIs (incl. URIs differing only in scheme), repeated under varying write patterns and worker "
+             "counts, compared with the model (extracted judge + coqc VM sample) and with implementation-side oracles. tokio's "
+             "scheduler, OS pipes and fairness are not modelled: the theorem quantifies over all interleavings at "
+             "channel-operation granularity, the real runtime is only sampled.",
+        design_ref="DESIGN.md section 5, C20",
+        technique="Coq proof (invariant + refinement over all schedules of a transition-system model of the task/channel structure) + correspondence against the binary under load"),
     "C19": dict(
         category="proof",
         text="Theorems for ALL byte streams and ALL segmentations (Props/C19.v) over the model of LSCodec::decode/encode and of "
